@@ -314,9 +314,14 @@ CloseCon ==
             /\ (how = "cont" => Top.n = 0)
             \* a shared label cannot be terminated by END DO (one END DO ends one DO)
             /\ (how = "enddo" => ~(Len(stack) > 1 /\ stack[Len(stack) - 1].k = "dol" /\ stack[Len(stack) - 1].l = Top.l))
-            /\ out' = Append(out, [Rec(IF how = "stmt" THEN "s" ELSE how, IF how = "stmt" THEN "" ELSE "dol",
-                                       1, IF how = "enddo" THEN Top.n ELSE 0, Top.l, IF how = "enddo" /\ Top.n > 0 THEN 1 ELSE 0)
-                                   EXCEPT !.d = IF how = "stmt" THEN Depth ELSE Depth - 1])
+            \* the terminating action statement is any simple statement that may be a do-term-action-stmt
+            /\ \E v \in (IF how = "stmt" THEN Ch((SimpleV \cap SimpleDoTermOK) \cup {1}) ELSE {1}) :
+                 /\ SimpleOK(v)
+                 /\ rich + Cost(v, SimpleV) <= MaxRich /\ rich' = rich + Cost(v, SimpleV)
+                 /\ needs08' = (needs08 \/ (how = "stmt" /\ v \in Simple08))
+                 /\ out' = Append(out, [Rec(IF how = "stmt" THEN "s" ELSE how, IF how = "stmt" THEN "" ELSE "dol",
+                                            v, IF how = "enddo" THEN Top.n ELSE 0, Top.l, IF how = "enddo" /\ Top.n > 0 THEN 1 ELSE 0)
+                                        EXCEPT !.d = IF how = "stmt" THEN Depth ELSE Depth - 1])
             /\ stack' = CloseLabel(stack, Top.l)
             /\ UNCHANGED nlab
      ELSE \E lab \in BOOLEAN :                    \* so may the END statement
@@ -324,7 +329,8 @@ CloseCon ==
           /\ out' = Append(out, [Rec("end", Top.k, Top.v, Top.n, IF lab THEN nlab ELSE 0, IF Top.n > 0 THEN 1 ELSE 0) EXCEPT !.d = Depth - 1])
           /\ stack' = Pop(stack)
           /\ nlab' = IF lab THEN nlab + 1 ELSE nlab
-  /\ UNCHANGED <<done, needs08, nname, nunit, rich>>
+          /\ UNCHANGED <<needs08, rich>>
+  /\ UNCHANGED <<done, nname, nunit>>
 
 Finish ==
   /\ ~done /\ stack = <<>> /\ nunit > 0
